@@ -27,7 +27,10 @@ import (
 //
 // Soundness: a session may legitimately be closed by a timer that fires while it has no stream. The handovers of all
 // pairs therefore have to be over well within one timeout period (measured; otherwise the case is not judged): a timer
-// armed during a handover fires when the new stream has been open for a long time.
+// armed during a handover fires when the new stream has been open for a long time. The timer every session arms when it
+// is made is waited out before the handovers start (first version of this check did not, and raised a false alarm on
+// the unchanged tree in 1 of ~20 runs, on a heavily loaded machine where setting the pairs up took about one timeout
+// period: that timer met the instant between close and open).
 
 type c12IdleRace struct {
 	Method  byte
@@ -109,6 +112,9 @@ func c12IdleRaceRun(sc c12IdleRace) (vk.Result, error) {
 			return res, vk.Violatef("cannot open the first stream on a fresh session: %v", err)
 		}
 	}
+	// every session armed a timer when it was made; those must have fired (and found the first stream open) before
+	// the handovers begin, or one of them could legitimately meet the instant between the close and the open
+	time.Sleep(2 * timeout)
 	t0 := time.Now()
 	var wg sync.WaitGroup
 	for i, p := range pairs {
@@ -156,7 +162,7 @@ func c12IdleRaceRun(sc c12IdleRace) (vk.Result, error) {
 	time.Sleep(timeout + timeout/2)
 	for i, p := range pairs {
 		if p.cli.IsClosed() || p.srv.IsClosed() {
-			return res, vk.ViolateSig("idle-closed-with-open-stream", "pair %d (%d connections, opener offset %d us): the session closed itself %v after its last stream was closed, although another stream had been opened at that moment and is still open (client closed=%v, server closed=%v; inactivity timeout %v) - the timeout may close a session only while it has no open stream", i, sc.Conns, sc.Offsets[i%len(sc.Offsets)], time.Since(t0), p.cli.IsClosed(), p.srv.IsClosed(), timeout)
+			return res, vk.ViolateSig("idle-closed-with-open-stream", "pair %d (%d connections, opener offset %d us): the session closed itself %v after its last stream was closed, although another stream had been opened at that moment and is still open (client closed=%v %q, counts %d; server closed=%v %q, counts %d; inactivity timeout %v, handover phase %v) - the timeout may close a session only while it has no open stream", i, sc.Conns, sc.Offsets[i%len(sc.Offsets)], time.Since(t0), p.cli.IsClosed(), p.cli.TerminalMsg(), p.cli.streamCount(), p.srv.IsClosed(), p.srv.TerminalMsg(), p.srv.streamCount(), timeout, handover)
 		}
 		msg := []byte(fmt.Sprintf("still-alive-%d", i))
 		if _, err := p.newC.Write(msg); err != nil {
